@@ -21,6 +21,7 @@ class Spec(c01.Spec):
         {'label': 'cyclic-initial-env', 'family': 'mixed', 'cyclic': True,
          'init_env': True},
         {'label': 'scheduled-twice', 'family': 'well', 'calls': 2},
+        {'label': 'well-formed-and-wide', 'family': 'wide'},
         {'label': 'thread-start-fails', 'family': 'well',
          'start_fault': True},
     ]
